@@ -258,6 +258,7 @@ def run(prog, rep):
 
     acc1_rule(prog, rep, S)
     dup1_rule(prog, rep)
+    dup2_rule(prog, rep)
     from ..report import import_verdicts
     import_verdicts(prog, rep, "C04", ("PROV-2", "SIB-1"), "ID-3",
                     "section_unique_ids / property_unique_ids compare the stored id strings: two spellings of one UUID must not both be storable")
@@ -396,6 +397,60 @@ def dup1_rule(prog, rep):
         rep.check(good, "DUP-1", "object_unique_names reports repeated keys only", why,
                   "the duplicate scan is not a seen-set scan: %s" % why, where(f, yn.ast),
                   witness="siblings a, a, b: also the first `a` and the unique `b` are reported (or no duplicate at all)")
+
+
+def _selector(vmod, e):
+    """(parameter, returned expression) of a one-argument selector given as lambda or as a module level function with a single return"""
+    if isinstance(e, ast.Lambda) and len(e.args.args) == 1:
+        return e.args.args[0].arg, e.body
+    if isinstance(e, ast.Name) and e.id in vmod.functions:
+        fn = vmod.functions[e.id]
+        rets = [n for n in ast.walk(fn.node) if isinstance(n, ast.Return)]
+        body = [st for st in fn.node.body if not (isinstance(st, ast.Expr) and isinstance(st.value, ast.Constant))]
+        if len(fn.params) == 1 and len(rets) == 1 and len(body) == 1 and rets[0].value is not None:
+            return fn.params[0], rets[0].value
+    return None
+
+
+def dup2_rule(prog, rep, rule="DUP-2"):
+    """the uniqueness key of the Property scan is the name alone"""
+    from ..astutil import bound_args
+    rep.rule(rule, "every call of object_unique_names whose `children` selector returns the Properties of the object (.properties / .props / "
+                   "._props) uses the key selector `x.name` (explicitly or through the default of the parameter): sibling Properties are "
+                   "duplicates when their names agree, whatever else differs. A key with more components reports fewer duplicates")
+    vmod = prog.module_of("validation")
+    oun = vmod.functions.get("object_unique_names")
+    if oun is None:
+        raise AnalysisError("validation.object_unique_names vanished")
+    params = list(oun.params)
+    n = 0
+    for f in vmod.functions.values():
+        for c in ast.walk(f.node):
+            if not (isinstance(c, ast.Call) and isinstance(c.func, ast.Name) and c.func.id == "object_unique_names"):
+                continue
+            args = bound_args(c, params)
+            if args is None:
+                rep.fail(rule, "%s|opaque-call" % f.short, "object_unique_names is called with * / ** arguments: the selectors are not readable", where(f, c))
+                continue
+            eff = {}
+            for prm, a in zip(params, args):
+                eff[prm] = a if a is not None else oun.defaults.get(prm)
+            ch = _selector(vmod, eff.get("children")) if eff.get("children") is not None else None
+            if ch is None:
+                rep.fail(rule, "%s|children-selector" % f.short, "the children selector of this scan is not a readable one-argument function", where(f, c))
+                continue
+            cp, cbody = ch
+            sel = unparse(cbody)
+            if sel not in ("%s.properties" % cp, "%s.props" % cp, "%s._props" % cp):
+                continue
+            n += 1
+            rep.saw_function(f)
+            key = _selector(vmod, eff.get("attr")) if eff.get("attr") is not None else None
+            ok = key is not None and unparse(key[1]) == "%s.name" % key[0]
+            rep.check(ok, rule, "%s|property-key" % f.short, "key selector is the name",
+                      "the Property scan compares `%s`, not the name alone" % (unparse(key[1]) if key else unparse(eff.get("attr")) if eff.get("attr") is not None else "?"),
+                      where(f, c), witness="two sibling Properties named alike that differ in the extra component: no issue, the document is saved")
+    rep.floor(rule, n, 1, "Property uniqueness scans")
 
 
 def _is_empty_set(v):
